@@ -64,8 +64,10 @@ ASSUMPTIONS = [
     "the code); a start on a failing storage is generated for link-free circuits with working writes only; a stop on a "
     "failing storage for circuits without the slow clean-up block; a failing pop/del at the start only when the "
     "initialisation cannot fail; what the code does when the unprotected operations "
-    "fail (pop inside the save's handler, the stop-time write, _check_persistent_data) is modelled as it is and "
-    "compared, not judged by the oracle",
+    "fail (pop inside the save's handler during an event, _check_persistent_data at the start) is modelled as it is "
+    "and compared, not judged by the oracle; the stop is modelled with the repair "
+    "patches/C08-storage-fault-at-stop-skips-cleanup.diff (storage errors of the save-and-stamp section are logged, "
+    "the clean-up follows)",
     "reading of 'nothing is written if start-up failed' = abort before the start or a failing start() "
     "(DESIGN.md 6); a failing initialisation rewrites the entries and is compared with the model only",
 ]
@@ -1365,6 +1367,8 @@ def _run_impl(scn, world):
             break
     if first.snaps and first.snaps[-1].get('stop_raised'):
         tags.append('stop-raised-storage-error (clean-up skipped)')
+    if first.snaps and first.snaps[-1].get('on_faulty_storage'):
+        tags.append('stop-on-failing-storage')
     if first.snaps and first.snaps[0].get('start_error'):
         tags.append('start-failed-on-storage-error')
     tags.append('cleanup=' + ('none' if scn.get('slow') is None else scn.get('stop', {}).get('kind', 'full')))
@@ -1508,7 +1512,13 @@ def oracle(scn, res):
                         viol('stop_saves_all_with_timestamp',
                              f'the clean-up starts: {keys[i]} holds {got!r}, block state {want!r}', at='cleanup-start')
         if s['label'] == 'stop' and first[0]['label'] == 'init' and s.get('on_faulty_storage'):
-            # a stop on a failing storage is compared with the model only; remember what did get saved
+            # a stop on a failing storage: no exception leaves run_forever / shutdown() because of the storage (the
+            # clean-up must take place); what the storage holds afterwards is compared with the model; remember
+            # what did get saved (the restarts start from whatever is there)
+            if s.get('stop_raised'):
+                viol('stop_unaffected_by_storage_fault',
+                     f"stop on a failing storage ({first[n - 1].get('faults') or s.get('faults')}): the storage's exception "
+                     f"left run_forever before the clean-up (no block was stopped)")
             prev = first[n - 1]['obs']
             for i, spec in enumerate(specs):
                 if spec['p'] and i not in frozen and prev[i]['persistent'] and keys[i] in s['store'] and \
